@@ -91,13 +91,25 @@ func (t *Transaction) Transact(operations ...ovsdb.Operation) ([]*ovsdb.Operatio
 			r = t.Wait(op.Table, op.Timeout, op.Where, op.Columns, op.Until, op.Rows)
 		case ovsdb.OperationCommit:
 			durable := op.Durable
-			r = t.Commit(*durable)
+			if durable == nil {
+				r = ovsdb.ResultFromError(fmt.Errorf("commit operation requires a durable member"))
+			} else {
+				r = t.Commit(*durable)
+			}
 		case ovsdb.OperationAbort:
 			r = t.Abort()
 		case ovsdb.OperationComment:
-			r = t.Comment(*op.Comment)
+			if op.Comment == nil {
+				r = ovsdb.ResultFromError(fmt.Errorf("comment operation requires a comment member"))
+			} else {
+				r = t.Comment(*op.Comment)
+			}
 		case ovsdb.OperationAssert:
-			r = t.Assert(*op.Lock)
+			if op.Lock == nil {
+				r = ovsdb.ResultFromError(fmt.Errorf("assert operation requires a lock member"))
+			} else {
+				r = t.Assert(*op.Lock)
+			}
 		default:
 			r = ovsdb.ResultFromError(&ovsdb.NotSupported{})
 		}
